@@ -4,7 +4,9 @@
      parse_float OCaml's float_of_string (correctly rounded strtod), overflow = error as in Go
      cid_str     finite table from the record (Cid.String())
      cid_parse   finite table from the record (cid.Decode); a string missing from the table is
-                 reported as "!tablemiss" in the model observation (forces a visible mismatch) *)
+                 an error of the harness: it is reported as the oracle class table_miss (never listed
+                 as known, so it is a VIOLATION with a replay, not a bare mismatch) and marked
+                 "!tablemiss" in the model observation *)
 open Model
 open Dmio
 
@@ -166,6 +168,7 @@ let () =
                end
              end
            | _ -> fails := "malformed_obs" :: !fails);
+        if !tablemiss then fails := "table_miss" :: !fails;
         let fl = List.sort_uniq compare !fails in
         if fl = [] then "ok" else "fail:" ^ String.concat "," fl in
       print_string id; print_char '\t'; print_string model_obs; print_char '\t'; print_endline verdict
@@ -185,5 +188,6 @@ let () =
           "ok:" ^ string_of_dm d ^ (if bit 5 then Printf.sprintf "|rest:%d" (List.length rest) else "")
         | Err e -> "err:" ^ jderr_name e in
       let model_obs = if !tablemiss then model_obs ^ "!tablemiss" else model_obs in
-      print_string id; print_char '\t'; print_string model_obs; print_char '\t'; print_endline "ok"
+      print_string id; print_char '\t'; print_string model_obs; print_char '\t';
+      print_endline (if !tablemiss then "fail:table_miss" else "ok")
     | _ -> ())
